@@ -27,7 +27,7 @@ MANIFEST = {
             "checked with linear guards. Right level: acceptance is a per-primitive all-inputs claim readable from code shape.",
     "note": "Trusted: serde visitors/Deserialize impls, core::str::from_utf8, rustc MIR. Does not decide precedence among "
             "simultaneous violations beyond one function, nor visitor-side rejections. 64-bit host only.",
-    "technique": "static analysis: path-sensitive MIR term evaluation + table agreement + bit-affine abstract interpretation + linear guard reasoning",
+    "technique": "static analysis: path-sensitive MIR term evaluation in constructor normal form + wire-format table agreement + bit-affine abstract interpretation of the varint readers + hand-written cursor specification compared semantically",
 }
 
 DE_TRAIT = "serde_core::de::Deserializer"
